@@ -107,3 +107,13 @@ Definition run_simd_sse2 (op : nat) (a b : list Z) : list Z :=
 Definition run_mask_store (n : nat) (mask : Z) (v mem : list Z) : list Z :=
   map (mask_store_fb n mask v (fun q => nth q mem 0%Z)) (seq 0 (length mem)).
 Definition run_mask_load (n : nat) (mask : Z) (mem : list Z) : list Z := mask_load_fb n mask (fun q => nth q mem 0%Z).
+
+(* ---- C10-C12: LU / solve / inverse over Z on unimodular integer matrices (all divisions are by 1) *)
+From FastorV Require Import Model.Linalg.
+Definition mat_of (n : nat) (l : list Z) : nat -> nat -> Z := fun i j => nth (i * n + j) l 0%Z.
+Definition list_of (n m : nat) (A : nat -> nat -> Z) : list Z := flat_map (fun i => map (A i) (seq 0 m)) (seq 0 n).
+Definition run_lu (n : nat) (A : list Z) : list Z * list Z :=
+  (list_of n n (lu_L (S:=ZS) n (mat_of n A)), list_of n n (lu_U (S:=ZS) n (mat_of n A))).
+Definition run_lu_inverse (n : nat) (A : list Z) : list Z := list_of n n (lu_inverse (S:=ZS) n (mat_of n A)).
+Definition run_lu_solve (n c : nat) (A B : list Z) : list Z :=
+  list_of n c (fun i j => lu_solve (S:=ZS) n (mat_of n A) (fun r => nth (r * c + j) B 0%Z) i).
